@@ -422,7 +422,7 @@ def standard_run(ctx, pid, family, props, confs, quick_budget, thorough_budget, 
         jobs.append((pid, family, props, conf, idx, ctx.seed, ctx.scratch, maxlen, quick_budget if quick else thorough_budget,
                      'class' if quick else 'edges'))
     from concurrent.futures import ProcessPoolExecutor
-    with ProcessPoolExecutor(max_workers=min(5 if quick else 3, len(jobs))) as ex:
+    with ProcessPoolExecutor(max_workers=min(5 if quick else 2, len(jobs))) as ex:
         for res in ex.map(_model_job, jobs):
             fam.scripts += res['scripts']
             fam.states += res['states']
